@@ -35,6 +35,7 @@ Record cparams := {
   p_cap : nat;          (* cap= / n= *)
   p_new : bool;         (* new=1 *)
   p_iter : bool;        (* iter=1 *)
+  p_lazy : bool;         (* lazy=1: from_iter / join_all get an iterator whose size_hint is (0, Some n) *)
   p_seed : option Z;    (* seed= *)
   p_hlo : nat;          (* hint slack *)
   p_hhi : option nat;
